@@ -555,6 +555,9 @@ func Chain(run *hx.Run, r *hx.Rng, kinds []string, maxDepth int) {
 		if centreFirst && s == 0 && !subsel && suitable("center", cur) {
 			o = RandomOp(r, cur, []string{"center"})
 		}
+		if s == 0 && !subsel && !weldFirst && cur.Topo == int(modeling.TriangleTopology) && len(cur.Mats) >= 2 && r.Chance(1, 3) {
+			o = OpDesc{Op: "split"} // a mesh with several material ranges is split straight away one time in three
+		}
 		if weldFirst && s == 0 {
 			o = RandomOp(r, cur, []string{"weld"})
 		}
